@@ -82,6 +82,11 @@ CHECKS = {
         text="C16_every_time_has_a_row, C16_row_spec, C16_incomplete_history_extrapolates, C16_zero_delay hold for every problem, delayed expression, delay vector and decision vector; the model (history assembly, enough-history decision incl. NaN scan, interpolation over history ++ horizon, row nominal) is compared with the delay rows of nlp g on generated models with zero / short / long / parameter-dependent delays, complete / short / partial / absent per-member histories, non-equidistant grids and nominals.",
         note="Trusted: Coq kernel + vm_compute; harness. Delayed expressions mentioning constant inputs or time, alias receivers and the simulator's delay buffer (C09) are outside this model. No axioms. Genuine defect repaired in /repo 1a72412 (zero row nominal).",
         ref="DESIGN.md §5 C16"),
+    "C09": dict(
+        technique="Coq proof (roots of the step residual are backward-Euler steps; identity with the theta = 1 transcription rows; delay-buffer weights = linear interpolation) + the residual model evaluated in Coq on every step of real pymoca-compiled simulations, cross-checked against the optimisation transcription model",
+        text="C09_root_is_step, C09_equals_collocation_theta1, C09_outputs_every_step and C09_delay_weight are proved for every equation list, state, step size and delay; generated Modelica models (states, algebraics, negated aliases, nominals, parameters, inputs, bilinear terms, integer and non-integer delays) are compiled by pymoca and run through SimulationProblem+CSVMixin; after initialize() and after each update() all variables are read back and the model equations with der = (x(t+dt)-x(t))/dt and inputs at t+dt are evaluated in Coq on their rational images, the whole trajectory is substituted into the theta = 1 collocation rows of Transcribe.v, delayed variables, exported CSV, fixed starts, input timing, aliases and set_var/get_var round trips are checked, and an unsolvable step must raise.",
+        note="Trusted: Coq kernel + vm_compute; harness; pymoca (compiles the generated text); the rootfinder / IPOPT initialisation are judged by their results (residual <= 1e-6 relative). The start-value precedence of initialize() is C14. No axioms. Two genuine defects repaired in /repo (22abefd signed nominals through negated aliases, b01b542 delay in parameter-free models).",
+        ref="DESIGN.md §5 C09"),
 }
 
 PENDING_REASON = "check not built yet (work in progress; see DESIGN.md §7 build order) — not claimed until its Coq model, theorems and correspondence check run clean on the unchanged tree"
